@@ -26,11 +26,12 @@ theorem Same.trans {a b c : Engine} (h1 : Same a b) (h2 : Same b c) : Same a c :
   ⟨h1.vis.trans h2.vis, h1.metrics.trans h2.metrics, h1.obs.trans h2.obs, h1.missed.trans h2.missed,
    h1.savedObs.trans h2.savedObs, h1.savedMissed.trans h2.savedMissed, h1.sc.trans h2.sc⟩
 
-/-- what `assess` guarantees by construction: reward jobs address different rows (one per
-target), task jobs task disjoint sets of sensors -/
+/-- what `assess` guarantees by construction: reward jobs address different rows (one per target) and there is one
+task job per target.  Task jobs need NOT task disjoint sets of sensors: the all-visible policy tasks one sensor to
+several targets in a step. -/
 def Compatible : JobResult → JobResult → Prop
   | .reward a _ _, .reward b _ _ => a ≠ b
-  | .task _ _ _ i1, .task _ _ _ i2 => ∀ p ∈ i1, ∀ q ∈ i2, p.1 ≠ q.1
+  | .task t1 _ _ _, .task t2 _ _ _ => t1 ≠ t2
   | _, _ => True
 
 private theorem upd_comm {α} (m : Nat → Option α) (a b : Nat) (x y : α) (h : a ≠ b) :
@@ -42,43 +43,52 @@ private theorem upd_comm {α} (m : Nat → Option α) (a b : Nat) (x y : α) (h 
   · subst h2; simp [h1, h]
   · simp [h1, h2]
 
-/-- value written by a list of sensor reports: the last report for that sensor, if any -/
-private theorem foldl_upd_apply (info : List (Nat × Pointing)) : ∀ (base : Nat → Option Pointing) (k : Nat),
-    (info.foldl (fun m p => upd m p.1 p.2) base) k
-      = (match (info.reverse.find? (fun p => p.1 == k)) with
-         | some p => some p.2
-         | none => base k) := by
-  induction info using List.reverseRecOn with
-  | nil => intro base k; rfl
-  | append_singleton l p ih =>
-    intro base k
-    rw [List.foldl_append, List.reverse_append]
-    simp only [List.foldl_cons, List.foldl_nil, List.reverse_singleton, List.singleton_append, List.find?_cons]
-    by_cases h : p.1 = k
-    · simp [upd, h]
-    · have : (p.1 == k) = false := by rw [beq_eq_false_iff_ne]; exact h
-      simp only [this]
-      rw [← ih base k]
-      simp [upd, Ne.symm h]
+/-- two reports from jobs of different targets commute, whether or not they concern the same sensor -/
+private theorem updMax_comm (m : Nat → Option (Nat × Pointing)) (k1 k2 : Nat) (c1 c2 : Nat × Pointing) (h : c1.1 ≠ c2.1) :
+    updMax (updMax m k1 c1) k2 c2 = updMax (updMax m k2 c2) k1 c1 := by
+  funext i
+  by_cases h12 : k1 = k2
+  · subst h12
+    by_cases hi : i = k1
+    · subst hi
+      have h21 : c2.1 > c1.1 ↔ ¬ c1.1 > c2.1 := by omega
+      cases hm : m i with
+      | none =>
+        by_cases a3 : c1.1 > c2.1 <;> simp [updMax, hm, a3, h21]
+      | some old =>
+        by_cases a1 : old.1 > c1.1 <;> by_cases a2 : old.1 > c2.1 <;> by_cases a3 : c1.1 > c2.1 <;>
+          simp [updMax, hm, a1, a2, a3, h21] <;> omega
+    · simp only [updMax, hi, if_false]
+  · by_cases hi1 : i = k1
+    · subst hi1
+      simp only [updMax, h12, if_true, if_false]
+    · by_cases hi2 : i = k2
+      · subst hi2
+        have : ¬ k1 = i := fun hc => hi1 hc.symm
+        simp only [updMax, if_true, hi1, if_false, Ne.symm h12, this]
+      · simp only [updMax, hi1, hi2, if_false]
 
-private theorem foldl_upd_comm (i1 i2 : List (Nat × Pointing)) (base : Nat → Option Pointing)
-    (h : ∀ p ∈ i1, ∀ q ∈ i2, p.1 ≠ q.1) :
-    i2.foldl (fun m p => upd m p.1 p.2) (i1.foldl (fun m p => upd m p.1 p.2) base)
-      = i1.foldl (fun m p => upd m p.1 p.2) (i2.foldl (fun m p => upd m p.1 p.2) base) := by
-  funext k
-  rw [foldl_upd_apply, foldl_upd_apply, foldl_upd_apply, foldl_upd_apply]
-  cases h1 : i1.reverse.find? (fun p => p.1 == k) with
-  | none => rfl
-  | some p =>
-    cases h2 : i2.reverse.find? (fun p => p.1 == k) with
-    | none => rfl
-    | some q =>
-      exfalso
-      have hp := List.mem_reverse.mp (List.mem_of_find?_eq_some h1)
-      have hq := List.mem_reverse.mp (List.mem_of_find?_eq_some h2)
-      have e1 : p.1 = k := by simpa using List.find?_some h1
-      have e2 : q.1 = k := by simpa using List.find?_some h2
-      exact h p hp q hq (e1.trans e2.symm)
+/-- folds of commuting updates commute -/
+private theorem foldl_comm {α β} (f : β → α → β) (l1 l2 : List α)
+    (h : ∀ a ∈ l1, ∀ b ∈ l2, ∀ s, f (f s a) b = f (f s b) a) (s : β) :
+    l2.foldl f (l1.foldl f s) = l1.foldl f (l2.foldl f s) := by
+  induction l1 generalizing s with
+  | nil => rfl
+  | cons a l1 ih =>
+    simp only [List.foldl_cons]
+    rw [ih (fun a' ha' b hb s => h a' (List.mem_cons_of_mem _ ha') b hb s)]
+    congr 1
+    -- move `a` through `l2`
+    have : ∀ (l2 : List α) (s : β), (∀ b ∈ l2, ∀ s, f (f s a) b = f (f s b) a) → l2.foldl f (f s a) = f (l2.foldl f s) a := by
+      intro l2
+      induction l2 with
+      | nil => intro s _; rfl
+      | cons b l2 ih2 =>
+        intro s hb
+        simp only [List.foldl_cons]
+        rw [hb b List.mem_cons_self s]
+        exact ih2 (f s b) (fun b' hb' s => hb b' (List.mem_cons_of_mem _ hb') s)
+    exact this l2 s (fun b hb s => h a List.mem_cons_self b hb s)
 
 /-- **any two results of one batch commute** -/
 theorem merge_comm (e : Engine) (r1 r2 : JobResult) (h : Compatible r1 r2) :
@@ -94,13 +104,33 @@ theorem merge_comm (e : Engine) (r1 r2 : JobResult) (h : Compatible r1 r2) :
     cases r2 with
     | reward b v2 m2 => exact ⟨rfl, rfl, .refl _, .refl _, .refl _, .refl _, rfl⟩
     | task t2 o2 ms2 i2 =>
-      have hd : ∀ p ∈ i1, ∀ q ∈ i2, p.1 ≠ q.1 := h
+      have hd : t1 ≠ t2 := h
       refine ⟨rfl, rfl, ?_, ?_, ?_, ?_, ?_⟩
       · simp only [merge, List.append_assoc]; exact List.Perm.append_left _ List.perm_append_comm
       · simp only [merge, List.append_assoc]; exact List.Perm.append_left _ List.perm_append_comm
       · simp only [merge, List.append_assoc]; exact List.Perm.append_left _ List.perm_append_comm
       · simp only [merge, List.append_assoc]; exact List.Perm.append_left _ List.perm_append_comm
-      · simp only [merge]; exact foldl_upd_comm i1 i2 _ hd
+      · simp only [merge]
+        exact foldl_comm (fun m p => updMax m p.1 (t1, p.2)) i1 [] (by simp) _ |>.symm ▸ (by
+          -- the two folds use different functions (different target tags): commute them pairwise
+          have key : ∀ (i1 i2 : List (Nat × Pointing)) (m : Nat → Option (Nat × Pointing)),
+              i2.foldl (fun m p => updMax m p.1 (t2, p.2)) (i1.foldl (fun m p => updMax m p.1 (t1, p.2)) m)
+                = i1.foldl (fun m p => updMax m p.1 (t1, p.2)) (i2.foldl (fun m p => updMax m p.1 (t2, p.2)) m) := by
+            intro i1
+            induction i1 with
+            | nil => intro i2 m; rfl
+            | cons a i1 ih =>
+              intro i2 m
+              simp only [List.foldl_cons]
+              rw [ih i2]
+              congr 1
+              induction i2 generalizing m with
+              | nil => rfl
+              | cons b i2 ih2 =>
+                simp only [List.foldl_cons]
+                rw [updMax_comm m a.1 b.1 (t1, a.2) (t2, b.2) hd]
+                exact ih2 _
+          exact key i1 i2 _)
 
 theorem merge_congr (e e' : Engine) (r : JobResult) (h : Same e e') :
     Same (merge .repaired e r) (merge .repaired e' r) := by
@@ -146,7 +176,7 @@ theorem assess_order_independent (e : Engine) (rs1 rs2 : List JobResult) (hp : r
 theorem compatible_symm (a b : JobResult) (h : Compatible a b) : Compatible b a := by
   cases a <;> cases b <;> simp only [Compatible] at h ⊢
   · exact fun hc => h hc.symm
-  · intro p hp q hq hc; exact h q hq p hp hc.symm
+  · exact fun hc => h hc.symm
 
 /-! ### nothing is duplicated or lost by the merges -/
 
@@ -186,15 +216,98 @@ theorem missed_quadratic_unrepaired :
 
 /-! ### pointing state -/
 
-/-- after the step every sensor named in some task job's report has exactly the pointing state
-that job reported (disjoint jobs: one report per tasked sensor) -/
+private theorem updMax_other (m : Nat → Option (Nat × Pointing)) (k s : Nat) (c : Nat × Pointing) (h : k ≠ s) :
+    updMax m k c s = m s := by
+  have : ¬ s = k := fun hc => h hc.symm
+  simp only [updMax, this, if_false]
+
+/-- where the value stored for sensor `s` after a job's reports comes from: it was there before, or it carries the job's target -/
+private theorem fold_source (t' s : Nat) (info : List (Nat × Pointing)) :
+    ∀ (base : Nat → Option (Nat × Pointing)) (c : Nat × Pointing),
+      (info.foldl (fun m p => updMax m p.1 (t', p.2)) base) s = some c → base s = some c ∨ (c.1 = t' ∧ ∃ r ∈ info, r.1 = s) := by
+  induction info with
+  | nil => intro base c h; exact Or.inl h
+  | cons r rest ih =>
+    intro base c h
+    simp only [List.foldl_cons] at h
+    rcases ih _ c h with h1 | ⟨h2, r', hr', hs'⟩
+    · by_cases hk : r.1 = s
+      · -- the value written at `s` by this report
+        simp only [updMax, hk, if_true] at h1
+        cases hb : base s with
+        | none =>
+          rw [hb] at h1
+          simp only [Option.some.injEq] at h1
+          exact Or.inr ⟨by rw [← h1], r, List.mem_cons_self, hk⟩
+        | some old =>
+          rw [hb] at h1
+          by_cases hgt : old.1 > t'
+          · simp only [hgt, if_true, Option.some.injEq] at h1
+            exact Or.inl (by rw [h1])
+          · simp only [hgt, if_false, Option.some.injEq] at h1
+            exact Or.inr ⟨by rw [← h1], r, List.mem_cons_self, hk⟩
+      · rw [updMax_other _ _ _ _ hk] at h1
+        exact Or.inl h1
+    · exact Or.inr ⟨h2, r', List.mem_cons_of_mem _ hr', hs'⟩
+
+/-- once the job's own report `(t, p)` for `s` is stored, its remaining reports leave it there -/
+private theorem fold_keeps (t s : Nat) (p : Pointing) (info : List (Nat × Pointing))
+    (huniq : ∀ q ∈ info, q.1 = s → q = (s, p)) :
+    ∀ (m : Nat → Option (Nat × Pointing)), m s = some (t, p) →
+      (info.foldl (fun m q => updMax m q.1 (t, q.2)) m) s = some (t, p) := by
+  induction info with
+  | nil => intro m h; exact h
+  | cons r rest ih =>
+    intro m h
+    simp only [List.foldl_cons]
+    apply ih (fun q hq => huniq q (List.mem_cons_of_mem _ hq))
+    by_cases hk : r.1 = s
+    · have hr := huniq r List.mem_cons_self hk
+      rw [hr]
+      simp only [updMax, if_true, h, gt_iff_lt, lt_self_iff_false, if_false]
+    · rw [updMax_other _ _ _ _ hk]; exact h
+
+/-- the job's own report for `s` ends up stored when nothing stored before has a higher target -/
+private theorem fold_own (t s : Nat) (p : Pointing) (info : List (Nat × Pointing))
+    (huniq : ∀ q ∈ info, q.1 = s → q = (s, p)) (hp : (s, p) ∈ info) :
+    ∀ (m : Nat → Option (Nat × Pointing)), (∀ c, m s = some c → c.1 ≤ t) →
+      (info.foldl (fun m q => updMax m q.1 (t, q.2)) m) s = some (t, p) := by
+  induction info with
+  | nil => cases hp
+  | cons r rest ih =>
+    intro m hm
+    simp only [List.foldl_cons]
+    by_cases hk : r.1 = s
+    · have hr := huniq r List.mem_cons_self hk
+      apply fold_keeps t s p rest (fun q hq => huniq q (List.mem_cons_of_mem _ hq))
+      rw [hr]
+      simp only [updMax, if_true]
+      cases hb : m s with
+      | none => rfl
+      | some old =>
+        have := hm old hb
+        have : ¬ old.1 > t := by omega
+        simp only [this, if_false]
+    · have hp' : (s, p) ∈ rest := by
+        rcases List.mem_cons.mp hp with h | h
+        · exact absurd (by rw [← h]) hk
+        · exact h
+      apply ih (fun q hq => huniq q (List.mem_cons_of_mem _ hq)) hp'
+      intro c hc
+      rw [updMax_other _ _ _ _ hk] at hc
+      exact hm c hc
+
+/-- **after the step every tasked sensor's pointing state is the one reported by the job that tasked it** - if several
+jobs tasked the same sensor (the all-visible policy), by the job of the highest target id, whatever order the jobs
+completed in -/
 theorem pointing_reflects_tasking (e : Engine) (rs : List JobResult) (t : Nat) (o : List Rec)
     (ms : List (Option Rec)) (info : List (Nat × Pointing)) (s : Nat) (p : Pointing)
     (hmem : JobResult.task t o ms info ∈ rs) (hp : (s, p) ∈ info)
     (huniq : ∀ q ∈ info, q.1 = s → q = (s, p))
+    (hmax : ∀ t' o' ms' info', JobResult.task t' o' ms' info' ∈ rs → (∃ q ∈ info', q.1 = s) → t' ≤ t)
     (hc : rs.Pairwise Compatible) (sensors : Nat → Pointing) :
     applyChanges sensors (runStep .repaired e rs) s = p := by
-  -- move the job to the end: allowed by order independence; then read the last write
+  -- move the job to the end: allowed by order independence
   obtain ⟨l1, l2, hsplit⟩ := List.append_of_mem hmem
   have hperm : rs.Perm (l1 ++ l2 ++ [JobResult.task t o ms info]) := by
     rw [hsplit]; simp only [List.append_assoc]
@@ -205,28 +318,49 @@ theorem pointing_reflects_tasking (e : Engine) (rs : List JobResult) (t : Nat) (
   unfold runStep
   rw [List.foldl_append]
   simp only [List.foldl_cons, List.foldl_nil, merge]
-  rw [foldl_upd_apply]
-  have : ∃ q, info.reverse.find? (fun q => q.1 == s) = some q := by
-    cases hf : info.reverse.find? (fun q => q.1 == s) with
-    | some q => exact ⟨q, rfl⟩
-    | none =>
-      have := List.find?_eq_none.mp hf (s, p) (List.mem_reverse.mpr hp)
-      simp at this
-  obtain ⟨q, hq⟩ := this
-  have hqm := List.mem_reverse.mp (List.mem_of_find?_eq_some hq)
-  have hqs : q.1 = s := by simpa using List.find?_some hq
-  rw [hq, huniq q hqm hqs]
+  -- nothing stored by the other jobs has a higher target
+  have hsub : ∀ j ∈ l1 ++ l2, j ∈ rs := by
+    intro j hj; rw [hsplit]
+    rcases List.mem_append.mp hj with h | h
+    · exact List.mem_append_left _ h
+    · exact List.mem_append_right _ (List.mem_cons_of_mem _ h)
+  have inv : ∀ (js : List JobResult), (∀ j ∈ js, j ∈ rs) → ∀ (e0 : Engine), (∀ c, e0.sensorChanges s = some c → c.1 ≤ t) →
+      ∀ c, (js.foldl (merge .repaired) e0).sensorChanges s = some c → c.1 ≤ t := by
+    intro js
+    induction js with
+    | nil => intro _ e0 h0 c hc; exact h0 c hc
+    | cons j js ih =>
+      intro hj e0 h0
+      simp only [List.foldl_cons]
+      apply ih (fun j' hj' => hj j' (List.mem_cons_of_mem _ hj'))
+      intro c hc
+      cases j with
+      | reward a v m => exact h0 c (by simpa [merge] using hc)
+      | task t' o' ms' info' =>
+        simp only [merge] at hc
+        rcases fold_source t' s info' _ c hc with h1 | ⟨h2, hr⟩
+        · exact h0 c h1
+        · rw [h2]; exact hmax t' o' ms' info' (hj _ List.mem_cons_self) hr
+  have hbase := inv (l1 ++ l2) hsub (resetForStep .repaired e) (by intro c hc; simp [resetForStep] at hc)
+  rw [fold_own t s p info huniq hp _ hbase]
 
-/-- the unrepaired `updateFromAsyncTaskExecution` reset `sensor_changes` for every job: of two task
-jobs only the one processed last updated its sensors — and which one that is depends on the order. -/
+/-- the bookkeeping before the repairs: (i) `sensor_changes` reset by every job - of two task jobs only the one processed
+last updated its sensors; (ii) reports accumulated but the last one processed won - a sensor tasked to two targets in one
+step (all-visible policy) ended up pointing wherever the job that happened to finish last had pointed it -/
 theorem sensor_changes_lost_unrepaired :
     let e0 : Engine := ⟨fun _ => none, fun _ => none, [], [], [], [], fun _ => none⟩
     let j1 := JobResult.task 1 [] [] [(10, ⟨1, 60⟩)]
     let j2 := JobResult.task 2 [] [] [(20, ⟨2, 60⟩)]
+    let k1 := JobResult.task 1 [] [] [(10, ⟨1, 60⟩)]
+    let k2 := JobResult.task 2 [] [] [(10, ⟨2, 60⟩)]
     (runStep .unrepaired e0 [j1, j2]).sensorChanges 10 = none ∧
-    (runStep .unrepaired e0 [j2, j1]).sensorChanges 10 = some ⟨1, 60⟩ ∧
-    (runStep .repaired e0 [j1, j2]).sensorChanges 10 = some ⟨1, 60⟩ ∧
-    (runStep .repaired e0 [j2, j1]).sensorChanges 10 = some ⟨1, 60⟩ := by
+    (runStep .unrepaired e0 [j2, j1]).sensorChanges 10 = some (1, ⟨1, 60⟩) ∧
+    (runStep .repaired e0 [j1, j2]).sensorChanges 10 = some (1, ⟨1, 60⟩) ∧
+    (runStep .repaired e0 [j2, j1]).sensorChanges 10 = some (1, ⟨1, 60⟩) ∧
+    (runStep .lastWrite e0 [k1, k2]).sensorChanges 10 = some (2, ⟨2, 60⟩) ∧
+    (runStep .lastWrite e0 [k2, k1]).sensorChanges 10 = some (1, ⟨1, 60⟩) ∧
+    (runStep .repaired e0 [k1, k2]).sensorChanges 10 = some (2, ⟨2, 60⟩) ∧
+    (runStep .repaired e0 [k2, k1]).sensorChanges 10 = some (2, ⟨2, 60⟩) := by
   decide +kernel
 
 end RV.Props.C08
